@@ -268,6 +268,35 @@ func init() {
 			}
 			return Scalar{And(Neq(iv.Tid, Int(0)), UF("implements_"+typeKey(ty), SBool, iv.Tid))}
 		},
+		// wrote_nothing(): no heap cell that existed at entry was written on any explored path so far
+		"wrote_nothing": func(e *Env, args []ast.Expr) Value {
+			var ks []string
+			for k := range e.fr.v.curWrites {
+				ks = append(ks, k)
+			}
+			if len(ks) > 0 {
+				e.fr.v.note("frame: writes to pre-existing cells: " + strings.Join(ks, ", "))
+			}
+			return Scalar{BoolT(len(ks) == 0)}
+		},
+		// syncmap(p, "field"): the content of the sync.Map field of *p as a map value
+		"syncmap": func(e *Env, args []ast.Expr) Value {
+			p, ok := e.eval(args[0]).(Ptr)
+			nv, ok2 := e.eval(args[1]).(Scalar)
+			if !ok || !ok2 || !nv.T.IsStr() {
+				fail("spec: syncmap(ptr, \"field\")")
+			}
+			p = e.st.canon(p).(Ptr)
+			return syncMapRef(e.st, Ptr{H: p.H, Path: nil}, nv.T.S)
+		},
+		// box(x, T): x as an interface value of dynamic type T
+		"box": func(e *Env, args []ast.Expr) Value {
+			ty := e.resolveType(args[1])
+			if ty == nil {
+				fail("spec: box: unknown type %s", exprStr(args[1]))
+			}
+			return Iface{Dyn: ty, V: e.eval(args[0])}
+		},
 		"ufval_ptr": func(e *Env, args []ast.Expr) Value {
 			h := e.ufApp(args, SInt)
 			return Ptr{H: h, Elem: e.ptrElemHint(args)}
